@@ -394,8 +394,11 @@ func netipFacts(cs []*Term, ts []*Term, t types.Type, base int) []*Term {
 	case *types.Struct:
 		off := base
 		for i := 0; i < u.NumFields(); i++ {
+			if fieldLeaves(u.Field(i).Type()) == 0 {
+				continue // (large embedded arrays have no leaves)
+			}
 			cs = netipFacts(cs, ts, u.Field(i).Type(), off)
-			off += nLeaves(u.Field(i).Type())
+			off += fieldLeaves(u.Field(i).Type())
 		}
 	case *types.Array:
 		if u.Len() <= maxValueArray {
